@@ -12,16 +12,17 @@ func errorsIs(err, target error) bool { return errors.Is(err, target) }
 func sortInts(a []int)                { sort.Ints(a) }
 
 var families = map[string]func(dir string, seed int64, tier string){
-	"codec":    famCodec,
-	"compare":  famCompare,
-	"hash":     famHash,
-	"streams":  famStreams,
-	"typed":    famTyped,
-	"json":     famJSON,
-	"heap":     famHeap,
-	"pipeline": famPipeline,
-	"conc":     famConc,
-	"golden":   famGolden,
+	"codec":     famCodec,
+	"compare":   famCompare,
+	"hash":      famHash,
+	"streams":   famStreams,
+	"typed":     famTyped,
+	"json":      famJSON,
+	"heap":      famHeap,
+	"pipeline":  famPipeline,
+	"conc":      famConc,
+	"concplain": famConcPlain,
+	"golden":    famGolden,
 }
 
 func main() {
